@@ -568,6 +568,10 @@ func (m *Monitors) checkExecEnd() {
 						m.violate("C06", "success-not-executed", "%s reported success for command (%d,%d), which it skipped and never executed (its state digest is that of the sequence without it)", a.Name(), id.ClientID, id.SequenceNumber)
 					}
 				}
+			} else if int(a.CIO.CmdCount()) < cnt {
+				// fewer than the committed ledger holds when every (client, sequence number) is executed once and only commands at
+				// or below an EXECUTED sequence number of their client are skipped: a committed command was dropped
+				m.violate("C06", "executed-fewer-than-ledger", "%s executed %d commands; its own execution events, each command once in ledger order, hold %d (a committed command that was never executed before was skipped)", a.Name(), a.CIO.CmdCount(), cnt)
 			} else if a.CIO.CmdCount() > 0 {
 				m.Obs["executed_sequences_not_reconstructed"]++
 			}
